@@ -50,6 +50,7 @@ type handler1 struct {
 	keepAlive        uint16
 	clientID         string
 	topicID          *util.IDSequence
+	topicIDsUsedUp   bool // all IDs of the topicID sequence have been assigned
 	pktBuffer        []snPkts.Packet
 	group            *errgroup.Group
 	transactions     *transactions.TransactionStore
@@ -484,8 +485,15 @@ func (h *handler1) mqttReceiveLoop(ctx context.Context) error {
 }
 
 func (h *handler1) newTopicID() (uint16, error) {
+	// IDSequence signalizes the overflow only once and then starts a new
+	// cycle, so we must remember it: the TopicIDs of the new cycle are
+	// already assigned.
+	if h.topicIDsUsedUp {
+		return 0, ErrTopicIDsExhausted
+	}
 	topicID, overflow := h.topicID.Next()
 	if overflow {
+		h.topicIDsUsedUp = true
 		return 0, ErrTopicIDsExhausted
 	}
 	for {
@@ -493,6 +501,7 @@ func (h *handler1) newTopicID() (uint16, error) {
 			break
 		}
 		if topicID, overflow = h.topicID.Next(); overflow {
+			h.topicIDsUsedUp = true
 			return 0, ErrTopicIDsExhausted
 		}
 	}
